@@ -1208,7 +1208,9 @@ rrul_fill_mly(echs_instant_t *restrict tgt, size_t nti, rrulsp_t rr)
 		tmp = echs_shift_dvalue(rr->shift) +
 			echs_shift_bvalue(rr->shift) * 7 / 5;
 
-		m -= tmp-- > 0;
+		m -= tmp-- > 0 ||
+			echs_shift_bday_p(rr->shift) &&
+			!echs_shift_neg_p(rr->shift);
 		m -= tmp / 30;
 		y -= m <= 0;
 		m += m > 0 ? 0 : 12;
